@@ -2,7 +2,7 @@
 open Model
 open Driver
 
-let run_case (kind : string) (body : sexp list) : string * string =
+let rec run_case (kind : string) (body : sexp list) : string * string =
   match kind with
   | "chain" ->
       let src = src_of (List.nth body 0) in
@@ -12,6 +12,21 @@ let run_case (kind : string) (body : sexp list) : string * string =
       let calls = List.map ev_of (args (List.nth body 0)) in
       let us = List.map uop_of (args (List.nth body 1)) in
       (show_trace (run_hot (expand_all us) (slot calls)), show_trace (uchain_spec us (slot calls)))
+  | "chain_t" -> run_case "chain" body
+  | "hotchain_t" -> run_case "hotchain" body
+  | "op2" | "op2_t" ->
+      let o = op2_of (List.nth body 0) in
+      let input s = (atom (List.hd (args s)) = "hot", List.map ev_of (List.tl (args s))) in
+      let (hot_a, script_a) = input (List.nth body 1) in
+      let (hot_b, script_b) = input (List.nth body 2) in
+      let side_ev s = ((match head s with "a" -> A | "b" -> B | _ -> failwith "bad side"), ev_of (List.hd (args s))) in
+      let hot_tl = List.map side_ev (args (List.nth body 3)) in
+      (* a cold input emits its script during its own subscription, in subscription order *)
+      let cold sd hot script = if hot then [] else List.map (fun e -> (sd, e)) (slot script) in
+      let ca = cold A hot_a script_a and cb = cold B hot_b script_b in
+      let pre = (match first_side o with A -> ca @ cb | B -> cb @ ca) in
+      let tl = pre @ hot_tl in
+      (show_trace (run_op2 o tl), show_trace (spec_op2 o tl))
   | k -> failwith ("unknown case kind " ^ k)
 
 let () =
